@@ -163,12 +163,18 @@ def run_case(c):
     return check_one(c)
 
 
-def main(argv):
-    if argv[0] == "case":
-        r = run_case(json.loads(argv[1]))
-        print(json.dumps({"violation": r}))
-        sys.exit(1 if r else 0)
-    opts = json.loads(argv[3]) if len(argv) > 3 else {}
+PROCESS_ZONES = ["JST-9", "EST5EDT,M3.2.0,M11.1.0", "NZST-12NZDT,M9.5.0,M4.1.0/3"]  # POSIX TZ strings: no tz database needed
+
+
+def set_process_zone(tz):
+    """the process's local time zone is an input of every naive-datetime operation: the library is imported (its epoch constant built) under it"""
+    import time as _time
+    if tz:
+        os.environ["TZ"] = tz
+        _time.tzset()
+
+
+def table(tz=None):
     n, found = 0, None
     cs = list(cases())
     todo = [dict(c) for c in cs] + [{"pair": [a, b]} for a in cs for b in cs if a["kind"] == b["kind"]] + [{"now": True}]
@@ -181,9 +187,43 @@ def main(argv):
         except Exception as e:  # noqa: BLE001
             r = f"raised {e!r}"
         if r:
+            if tz:
+                c = dict(c, tz=tz)
+                r = f"[process time zone TZ={tz}] {r}"
             found = {"case": c, "disagreement": r}
             break
-    res = {"cases": n, "found": [found] if found else []}
+    return n, found
+
+
+def main(argv):
+    if argv[0] == "case":
+        c = json.loads(argv[1])
+        set_process_zone(c.get("tz"))
+        r = run_case(c)
+        print(json.dumps({"violation": r}))
+        sys.exit(1 if r else 0)
+    if argv[0] == "table":
+        set_process_zone(argv[1])
+        n, found = table(argv[1])
+        print(json.dumps({"cases": n, "found": found}, default=repr))
+        return
+    opts = json.loads(argv[3]) if len(argv) > 3 else {}
+    n, found = table()
+    zones_run = [os.environ.get("TZ") or "(as started)"]
+    if not found:
+        import subprocess
+        for tz in PROCESS_ZONES:
+            p = subprocess.run([sys.executable, os.path.abspath(__file__), "table", tz], capture_output=True, text=True, timeout=250)
+            try:
+                r = json.loads(p.stdout.strip().splitlines()[-1])
+            except Exception:  # noqa: BLE001
+                r = {"cases": 0, "found": {"case": {"now": True, "tz": tz}, "disagreement": f"the table did not run under TZ={tz}: {p.stderr[-300:]}"}}
+            n += r["cases"]
+            zones_run.append(tz)
+            if r["found"]:
+                found = r["found"]
+                break
+    res = {"cases": n, "found": [found] if found else [], "process_time_zones": zones_run}
     if found and "replay_path" in opts:
         os.makedirs(os.path.dirname(opts["replay_path"]), exist_ok=True)
         with open(opts["replay_path"], "w") as f:
